@@ -34,8 +34,8 @@ def c2fRaw (xr xc : List α) : List (List α) :=
 
 def addRows (a b : List α) : List α := List.zipWith (· + ·) a b
 
-/-- fold the two halves of the top corner together, as the code does:
-`m[-1,:] += m[0,:]; m[:,-1] += m[:,0]; m[-1] *= 0.5; m = m[1:,1:]` -/
+/-- merge the two halves of the split top corner of a raw overlap matrix, as the code does:
+`m[-1,:] += m[0,:]; m[:,-1] += m[:,0]; m = m[1:,1:]` (lengths are merged, not averaged) -/
 def foldCorner (m : List (List α)) : List (List α) :=
   match m with
   | [] => []
@@ -52,13 +52,26 @@ def foldCorner (m : List (List α)) : List (List α) :=
           match cs.reverse with
           | [] => []
           | cl :: cmRev => (c0 :: cmRev.reverse) ++ [cl + c0]
-      -- halve the last row, drop first row and first column
-      let n := rows.length
-      let rows := rows.zipIdx.map fun (row, i) => if i + 1 == n then row.map (fun v => v / 2) else row
       (rows.drop 1).map fun row => row.drop 1
 
-def f2c (xr xc : List α) : List (List α) := foldCorner (f2cRaw xr xc)
-def c2f (xr xc : List α) : List (List α) := foldCorner (c2fRaw xr xc)
+/-- cell lengths with the two halves of the top corner merged into the last cell -/
+def mergedLengths (xb : List α) : List α :=
+  let d := (intervals xb).map fun r => r.2 - r.1
+  match d with
+  | [] => []
+  | d0 :: rest =>
+    match rest.reverse with
+    | [] => []
+    | dl :: midRev => midRev.reverse ++ [dl + d0]
+
+/-- gap (fine) -> region (coarse): merged overlap rows divided by the merged region cell length -/
+def f2c (xr xc : List α) : List (List α) :=
+  List.zipWith (fun row d => row.map (fun v => v / d)) (foldCorner (rawOverlap xr xc)) (mergedLengths xr)
+
+/-- region (coarse) -> gap (fine): transposed merged overlap divided by the merged gap cell length -/
+def c2f (xr xc : List α) : List (List α) :=
+  let ovT := (intervals xc).map fun c => (intervals xr).map fun r => ovl r.1 r.2 c.1 c.2
+  List.zipWith (fun row d => row.map (fun v => v / d)) (foldCorner ovT) (mergedLengths xc)
 
 /-- matrix–vector product -/
 def apply (m : List (List α)) (x : List α) : List α :=
